@@ -108,6 +108,12 @@ def canonical_groups():
         [I("att", '{"set":{"id":"14","topic":"me","desc":{"public":{"fn":"y"}}},"extra":{"attachments":["/v0/file/s/abc.jpg"]}}')],
         [I("att", '{"get":{"id":"7","topic":"me","what":"desc"},"extra":{"obo":"usrX"}}'),
          I("root", '{"get":{"id":"7","topic":"me","what":"desc"},"extra":{"obo":"usrX"}}')],
+        [I("root", '{"pub":{"id":"15","topic":"@PR@","content":"x"},"extra":{"obo":"@U2@"}}')],
+        [I("root", '{"get":{"id":"16","topic":"@PR@","what":"desc sub data"},"extra":{"obo":"@U2@"}}'),
+         I("root", '{"set":{"id":"17","topic":"@PR@","desc":{"private":"x"}},"extra":{"obo":"@U2@"}}'),
+         I("root", '{"note":{"topic":"@PR@","what":"read","seq":1},"extra":{"obo":"@U2@"}}'),
+         I("root", '{"del":{"id":"18","topic":"@PR@","what":"msg","delseq":[{"low":1}]},"extra":{"obo":"@U2@"}}'),
+         I("root", '{"leave":{"id":"19","topic":"@PR@","unsub":true},"extra":{"obo":"@U2@"}}')],
         [Item("pb", "in", G.pb_len(8, G.pb_str(1, "1") + G.pb_str(2, "me") + G.pb_len(3, b"")), ("pb",), gen="corpus"),
          Item("pb", "in", G.pb_len(8, G.pb_str(1, "1") + G.pb_str(2, "me") + G.pb_len(3, G.pb_len(2, b""))), ("pb",), gen="corpus")],
         [Item("ak", "-", k.encode("latin1"), ("ak",), gen="corpus") for k in G.APIKEYS],
@@ -324,7 +330,7 @@ def fuzz(ctx, stats):
             rp = json.load(open(ctx.replay))["replay"]
             groups = [[Item(i["op"], i["session"], bytes.fromhex(i["hex"]), ("replay",), gen="replay") for i in rp["inputs"]]]
         else:
-            groups = canonical_groups() if ci in (0, 7) or not quick else canonical_groups()[:6]
+            groups = canonical_groups()
             for gi in range(n_groups):
                 groups.append(gen_group(rng, glen, ["mixed", "mixed", "structured", "raw"][gi % 4] if gi % 8 != 7 else "raw"))
         crashed_shapes = {}
@@ -358,6 +364,8 @@ def fuzz(ctx, stats):
                     if r is not None:
                         account(stats, cfg, it, r)
                         total_eval += 1
+                        if it.msg is not None and "dec" in r:
+                            stats.setdefault("model_cases", []).append((cfg, it, r))
             if not fatal:
                 break
             gi, j = pos[fatal["index"]] if fatal["index"] >= 0 else (0, 0)
@@ -509,22 +517,6 @@ def drafty(ctx, stats):
 
 
 # ---------------- model correspondence (proof half) ----------------
-
-def enc_name(s):
-    b = s.encode("utf-8", "surrogatepass")
-    return b.hex() or "-"
-
-
-def model_line(it, r):
-    """Projects a structured input + the state facts reported by the driver onto the model's request."""
-    m = it.msg
-    if m is None or r is None or "st" not in r or r["st"] in ("", "-") or r.get("term"):
-        return None
-    kinds = [k for k in m if k != "extra"]
-    if len(kinds) != 1 or kinds[0] not in KNOWN_KINDS or not isinstance(m[kinds[0]], dict):
-        return None
-    return None
-
 
 def run(ctx):
     stats = {"dist": {}, "nontrivial": set(), "crashes": [], "aborted_configs": [], "skipped_after_crash": 0, "minimised": {}, "evaluations": 0}
